@@ -298,8 +298,9 @@ func observed[C any](run func(C) *Verdict, cs C) *Verdict {
 	if sig != "" {
 		out.Signature, out.Violation = sig, msg
 	} else if v.Violation != "" {
-		if v.Signature == "harness" {
-			out.Signature, out.Violation = "harness", v.Violation
+		if v.Signature == "harness" || strings.HasPrefix(v.Signature, os.Getenv("VERIF_AS")+"/") {
+			// a harness error, or a violation the donor test itself attributes to the observed property
+			out.Signature, out.Violation = v.Signature, v.Violation
 		} else {
 			out.Counters["other_property_failures_ignored"]++
 		}
